@@ -354,9 +354,40 @@ class ShockPlugin(SlotPlugin):
                      {"shock": name, "t": now, "order_market": market.name, "target": tgt, "trigger": trig, "enabled": enabled,
                       "already_replaced": self.replaced.get(name, 0), "before": repr(b[1:]), "after": repr(a[1:])})
 
+    def series_check(self, mon):
+        """independent of the taps (which sit in the same dispatch tables as the shocks): along the recorded series
+        of a zero-volatility market each step multiplies the fundamental by exp(drift) and by (1 + rate) once for
+        every enabled shock whose window covers that step."""
+        for m in mon.markets:
+            mid = m.market_id
+            if mid not in self.zero_vol or isinstance(m, IndexMarket):
+                continue
+            T = m.get_time()
+            if T < 1:
+                continue
+            series = m.get_fundamental_prices(range(T + 1))
+            for t in range(1, T + 1):
+                factor = math.exp(self.zero_vol[mid])
+                n_sh = 0
+                for sl in self.fslots:
+                    st = sl["settings"]
+                    if not st.get("enabled", True) or st.get("target") != m.name:
+                        continue
+                    trig = sl["start"] + int(st.get("triggerTime", 0))
+                    if trig <= t < trig + int(st.get("shockTimeLength", 1)) and t < self.total:
+                        factor *= (1 + float(st.get("priceChangeRate", 0.0)))
+                        n_sh += 1
+                want = series[t - 1] * factor
+                if not close(series[t], want, 1e-11):
+                    mon.viol("C14" if n_sh else self.label, "shock_magnitude" if n_sh else "zero_vol_continuation",
+                             {"market": m.name, "t": t, "got": series[t], "want": want, "shocks_due": n_sh, "seen_by": "recorded series"})
+                    break
+            mon.probe("zero_vol_series_checked")
+
     def finish(self, mon, completed):
         if not completed:
             return
+        self.series_check(mon)
         for sl in self.fslots:
             st = sl["settings"]
             if not st.get("enabled", True):
